@@ -82,3 +82,6 @@ N("c18-n-validate-socket-setblocking-per-branch", "C18", "abc/_sockets.py", "_va
 # from seeded change C18/h (round 4)
 M("c18-send-fds-waits-for-readable", "C18", A, "UNIXSocketStream.send_fds", "                    await self._wait_until_writable(loop)", "                    await self._wait_until_readable(loop)", ["R18-g"])
 M("c18-writable-helper-registers-reader", "C18", A, "_RawSocketMixin._wait_until_writable", "        loop.add_writer(self.__raw_socket, f.set_result, None)", "        loop.add_reader(self.__raw_socket, f.set_result, None)", ["R18-g"])
+N("c18-n-wait-helper-statement-order", "C18", A, "_RawSocketMixin._wait_until_writable",
+  "        f = self._send_future = asyncio.Future()\n        loop.add_writer(self.__raw_socket, f.set_result, None)\n        f.add_done_callback(callback)",
+  "        f = asyncio.Future()\n        self._send_future = f\n        f.add_done_callback(callback)\n        loop.add_writer(self.__raw_socket, f.set_result, None)")
